@@ -1,6 +1,9 @@
 package props
 
 import (
+	"fmt"
+	"regexp"
+	"sort"
 	"strings"
 
 	"verif/internal/corpus"
@@ -72,10 +75,72 @@ func c04One(r *fw.Rec, id, x string) {
 		}
 		r.Violate(fw.Violation{Key: "identity/" + id + "/" + classify(cls), Input: x, What: p})
 	}
+	// binding: a blockaddress must name, when printed, the block the text named
+	// (being *a* block of the function is not enough)
+	if strings.Contains(x, "blockaddress(") && len(c.Problems) == 0 {
+		if y, pp := printGuard(m); pp == "" {
+			bx, by := blockAddressTokens(x), blockAddressTokens(y)
+			if len(bx) > 0 {
+				r.TallyN("reference_slots", "binding.blockaddress-tokens", len(bx))
+			}
+			if strings.Join(bx, " ") != strings.Join(by, " ") {
+				first := ""
+				seen := map[string]int{}
+				for _, t := range bx {
+					seen[t]++
+				}
+				for _, t := range by {
+					seen[t]--
+				}
+				for _, t := range by {
+					if seen[t] < 0 {
+						first = t
+						break
+					}
+				}
+				r.Violate(fw.Violation{Key: "binding/" + id + "/blockaddress", Input: x,
+					What: fmt.Sprintf("the parsed module prints %s, which the input does not contain: a blockaddress is bound to another block than the one named (input: %s)", first, fw.Trunc(strings.Join(uniq(bx), " "), 400)), Observed: y})
+			}
+		}
+	}
 	if total > 0 {
 		r.Nontrivial(x)
 	}
 	if len(c.Problems) == 0 && total > 20 {
 		r.Sample(map[string]interface{}{"input": id, "reference_slots_checked": total})
 	}
+}
+
+var reBlockAddr = regexp.MustCompile(`blockaddress\((@[^,()]+), (%[^()]+)\)`)
+
+// blockAddressTokens returns the sorted blockaddress(@f, %b) tokens of a
+// module text outside comments, with redundant quotes of plain names removed.
+func blockAddressTokens(text string) []string {
+	var out []string
+	unq := func(s string) string {
+		if len(s) > 3 && s[1] == '"' && s[len(s)-1] == '"' {
+			inner := s[2 : len(s)-1]
+			plain := inner != ""
+			for i := 0; i < len(inner); i++ {
+				c := inner[i]
+				if !(c >= 'a' && c <= 'z' || c >= 'A' && c <= 'Z' || c == '.' || c == '_' || c == '$' || c == '-' || (i > 0 && c >= '0' && c <= '9')) {
+					plain = false
+				}
+			}
+			if plain {
+				return s[:1] + inner
+			}
+		}
+		return s
+	}
+	for _, line := range strings.Split(text, "\n") {
+		if i := strings.Index(line, ";"); i >= 0 && !strings.Contains(line[:i], "\"") {
+			line = line[:i]
+		}
+		for _, m := range reBlockAddr.FindAllStringSubmatch(line, -1) {
+			out = append(out, "blockaddress("+unq(m[1])+", "+unq(m[2])+")")
+		}
+	}
+	sort.Strings(out)
+	return out
 }
